@@ -91,6 +91,16 @@ mutant("c18-merge-takes-last-metadata", "C18", r"merge-(differs|rejected)",
 mutant("c18-no-validation-of-default-model", "C18", r"gate:",
        [("generator/__main__.py", "        jsonschema.validate(json_model, schema)\n", "        if args.model:\n            jsonschema.validate(json_model, schema)\n")], ["--runs", "0"])
 
+mutant("c18-maptype-eq-ignores-key", "C18", r"different-documents-compare-equal",
+       [("generator/model.py", "                self.key == other.key\n                and self.value == other.value\n", "                self.value == other.value\n")], ["--no-gate-classes"])
+mutant("c18-enum-eq-ignores-type", "C18", r"different-documents-compare-equal",
+       [("generator/model.py", "                self.name == other.name\n                and self.type == other.type\n                and self.values == other.values\n",
+         "                self.name == other.name\n                and self.values == other.values\n")], ["--no-gate-classes"])
+mutant("c18-ortype-eq-order-insensitive", "C18", r"different-documents-compare-equal",
+       [("generator/model.py", "        if isinstance(other, OrType):\n            return self.items == other.items and self.kind == other.kind",
+         "        if isinstance(other, OrType):\n            return (\n                len(self.items) == len(other.items)\n                and all(i in other.items for i in self.items)\n                and self.kind == other.kind\n            )")],
+       ["--no-gate-classes"])
+
 # ---- C19 ------------------------------------------------------------------------------------------
 mutant("c19-flag-set-before-resolution", "C19", r"(create-raised|use-differs|build-differs|sweep-differs)",
        [("packages/python/lsprotocol/_hooks.py", "    if not _resolved_forward_references:\n\n        def _filter", "    if not _resolved_forward_references:\n        _resolved_forward_references = True\n\n        def _filter")])
@@ -108,6 +118,12 @@ mutant("c19-hooks-use-latest-converter", "C19", r"(use-differs|build-differs|swe
         ("packages/python/lsprotocol/_hooks.py",
          "        else:\n            return converter.structure(object_, lsp_types.Location)\n\n    def _symbol_hook(",
          "        else:\n            return _CURRENT.structure(object_, lsp_types.Location)\n\n    def _symbol_hook(")])
+
+
+mutant("c19-id-keyed-registry", "C19", r"(use-differs|build-differs|sweep-differs|create-raised)",
+       [("packages/python/lsprotocol/converters.py",
+         "    if converter is None:\n        converter = cattrs.Converter()\n    return _hooks.register_hooks(converter)",
+         "    if converter is None:\n        converter = cattrs.Converter()\n    if id(converter) in _REGISTERED:\n        return converter\n    _REGISTERED.add(id(converter))\n    return _hooks.register_hooks(converter)\n\n\n_REGISTERED = set()")])
 
 
 def apply_edits(root: pathlib.Path, edits: List[Tuple[str, str, str]]) -> None:
